@@ -32,6 +32,16 @@ fn make_set(populated: bool, mode: u8) -> USet {
     s
 }
 
+fn make_set_n(n: u64, mode: u8) -> USet {
+    let s: USet = HashSet::with_capacity_and_hasher(64, HB::new(mode));
+    let g = s.guard();
+    for k in 0..n {
+        s.insert(k, &g);
+    }
+    drop(g);
+    s
+}
+
 fn map_unchanged(m: &UMap, model: &BTreeMap<u64, u64>) -> Result<(), String> {
     let g = m.guard();
     let mut got: Vec<(u64, u64)> = m.iter(&g).map(|(k, v)| (*k, *v)).collect();
@@ -270,6 +280,52 @@ pub fn run(ctx: &Ctx) -> Outcome {
                 let res = s.with_guard(&fg).is_superset(&o.with_guard(&og));
                 res
             });
+            // the same relations with operands of different sizes (an implementation may walk the
+            // smaller set and probe the larger one)
+            for on in [3u64, 40] {
+                scase!(if on == 3 { "HashSet::is_disjoint [our guard foreign, other smaller]" } else { "HashSet::is_disjoint [our guard foreign, other larger]" }, |s, fg| {
+                    let o = make_set_n(on, mode);
+                    let og = o.guard();
+                    s.is_disjoint(&o, &fg, &og)
+                });
+                scase!(if on == 3 { "HashSet::is_disjoint [their guard foreign, other smaller]" } else { "HashSet::is_disjoint [their guard foreign, other larger]" }, |s, fg| {
+                    let o = make_set_n(on, mode);
+                    let og = o.guard();
+                    o.is_disjoint(&s, &og, &fg)
+                });
+                scase!(if on == 3 { "HashSet::is_subset [our guard foreign, other smaller]" } else { "HashSet::is_subset [our guard foreign, other larger]" }, |s, fg| {
+                    let o = make_set_n(on, mode);
+                    let og = o.guard();
+                    s.is_subset(&o, &fg, &og)
+                });
+                scase!(if on == 3 { "HashSet::is_subset [their guard foreign, other smaller]" } else { "HashSet::is_subset [their guard foreign, other larger]" }, |s, fg| {
+                    let o = make_set_n(on, mode);
+                    let og = o.guard();
+                    o.is_subset(&s, &og, &fg)
+                });
+                scase!(if on == 3 { "HashSet::is_superset [our guard foreign, other smaller]" } else { "HashSet::is_superset [our guard foreign, other larger]" }, |s, fg| {
+                    let o = make_set_n(on, mode);
+                    let og = o.guard();
+                    s.is_superset(&o, &fg, &og)
+                });
+                scase!(if on == 3 { "HashSet::is_superset [their guard foreign, other smaller]" } else { "HashSet::is_superset [their guard foreign, other larger]" }, |s, fg| {
+                    let o = make_set_n(on, mode);
+                    let og = o.guard();
+                    o.is_superset(&s, &og, &fg)
+                });
+                scase!(if on == 3 { "HashSetRef::is_disjoint [other smaller]" } else { "HashSetRef::is_disjoint [other larger]" }, |s, fg| {
+                    let o = make_set_n(on, mode);
+                    let og = o.guard();
+                    let res = s.with_guard(&fg).is_disjoint(&o.with_guard(&og));
+                    res
+                });
+                scase!(if on == 3 { "HashSetRef::is_disjoint [foreign on the right, other smaller]" } else { "HashSetRef::is_disjoint [foreign on the right, other larger]" }, |s, fg| {
+                    let o = make_set_n(on, mode);
+                    let og = o.guard();
+                    let res = o.with_guard(&og).is_disjoint(&s.with_guard(&fg));
+                    res
+                });
+            }
             // NOTE: `HashSetRef == HashSetRef` compares the underlying sets under fresh guards of
             // their own and never looks at the wrapped guards, so it is not required to panic.
             scase!("HashSetRef::eq(HashSet)", |s, fg| {
